@@ -21,10 +21,14 @@ CLAIMED = {
             "Box selection (int/slice/list/mask) and level selection are numpy/Python indexing, checked by the oracle only."),
     "C02": ("Lean 4 header/level-header parser models + differential correspondence check",
             "Proof: C02.field_keys_distinct / field_index / field_first_occurrence (the exposed field table: distinct keys, i-th name under index i, "
-            "first occurrences keep their name), C02.grids_are_cell_centres (linspace grids are the cell centres, over Rat), fab_header_codec, on the "
+            "first occurrences keep their name; field_table_distinct: names with positions when distinct), C02.global_header_parse_render / global_header_limit / "
+            "global_header_limit_above (parse-after-render = identity for the global Header, recursive line/token parser: any number of fields, dimensions, levels, boxes; "
+            "a limit l exposes the per-level tables cut after level l; a limit above the finest level is refused) and level_header_parse_render, with the hypothesis decided on every real "
+            "header by the driver (global_header_hypothesis_decidable) and the renderer compared byte for byte with the headers written by plotgen and by every writing tool, C02.grids_are_cell_centres (linspace grids are the cell centres, over Rat), fab_header_codec, on the "
             "line/token model of PlotfileCooker.__init__/read_boxes/read_cell_headers (Header.parse, Taste.parseCellH); every exposed attribute is compared with an independent oracle's parse and "
             "with the Lean models for every opening mode (limits 0..finest+1, header_only on a directory holding only the Header, "
-            "maxmins).", "Float tokens are opaque strings in Lean; their numeric value is compared by the oracle. parse-after-render and limit-prefix are not theorems: every opening mode is compared attribute by attribute instead."),
+            "maxmins).", "Float tokens are opaque strings in Lean (kept verbatim by parser and renderer); their numeric value and Python's str(float) are compared by the oracle only. Headers that are not a text of the renderer (tabs, several blanks between tokens, "
+            "more level blocks than the stated finest level as in the shipped 2D asset) are outside the parse-after-render theorems; they are still covered by the differential comparison of the parser model."),
     "C03": ("Lean 4 completeness theorem of the validator walk + differential correspondence check",
             "Proof: Taste.shapeOK_complete (every well-formed binary file is accepted by the byte walk of mp_fun_shape), "
             "headersOK_entry, isLine_canonB, parse_canonB; the whole-plotfile validator model (Taste.tastePlt) is compared with "
@@ -132,10 +136,12 @@ CLAIMED = {
             "Proof: C14.pipeline_refines (for EVERY finite sequence of strain / cook / combine operations the contents of the result equal the composed pure operations, "
             "by induction from step_refines), strain_all_id, cook_then_combine_back (the two corollaries the property names), on top of "
             "Writers.colander_data, combine_data, chef_data, chk_data (each tool's output record for box i is the pure operation on box i); "
+            "C14.written_headers_read_back (the global header and the level header a writer prints are read back as exactly the content they were printed from; the global header of every "
+            "intermediate result is checked to be a text of the Lean renderer satisfying the theorem's hypothesis); "
             "pipelines over {colander, combine with sibling/ancestor, chef} (all sequences of length <= 2 over kinds, sampled to length 4, plus "
             "chk2plt sources) are run on disk with every intermediate tasted, parsed by the oracle and compared bit for bit with the composed pure "
             "operations; the two named corollaries are explicit cases.",
-            "Record level, one AMR level (tools treat levels independently); header re-parsing of every writer's output is checked by the oracle on real outputs."),
+            "Record level, one AMR level (tools treat levels independently); the float tokens of rewritten headers (str(float)) are compared by the oracle only."),
 }
 
 NOT_YET = {}
